@@ -726,7 +726,7 @@ class LinkAppend:
             # prefer an owner that has an older, stale-for-reads handle (see link_path_changed)
             for k2 in okinds:
                 ents = run.enum(k2)
-                hit = [i for i, e in enumerate(ents) if id(e) in run.stale_writers]
+                hit = [i for i, e in enumerate(ents) if e.uid in run.stale_writers]
                 if hit:
                     ok, oi = k2, P.pick(rng, hit)
                     li = rng.randrange(len(LINKLISTS[ok]))
@@ -747,7 +747,7 @@ class LinkAppend:
             return res(NOOP)
         t = cands[o["t"] % len(cands)]
         oh = run.R(owner, o.get("via", 0))
-        sw = run.stale_writers.get(id(owner))
+        sw = run.stale_writers.get(owner.uid)
         if sw and o.get("via", 0) % 2 == 0:
             # an older handle of the owner whose view of an emptied list is stale (known finding
             # F14a): appending through it must still reach the file
@@ -994,8 +994,9 @@ class Delete:
         run.expect_ok(r, "delete_%s:%s" % (m.kind, by))
         closure = M.ownership_closure(m)
         M.delete_objects(run.fs_of(parent).model if parent.kind != "file" else parent, closure)
-        run.pool = {k: v for k, v in run.pool.items() if k not in set(id(x) for x in closure)}
-        run.stale_writers = {k: v for k, v in run.stale_writers.items() if k not in set(id(x) for x in closure)}
+        gone = set(x.uid for x in closure)
+        run.pool = {k: v for k, v in run.pool.items() if k not in gone}
+        run.stale_writers = {k: v for k, v in run.stale_writers.items() if k not in gone}
         run.link_path_changed()
         run.stats["deletes"] += 1
         if linked:
@@ -1117,7 +1118,7 @@ class ForceTs:
         t = o.get("t")
         # older handles of the same entity read their timestamps first, and must show the forced
         # value afterwards as well
-        others = [] if o["kind"] == "file" else [x for x in run.pool.get(id(m), []) if x is not h][:4]
+        others = [] if o["kind"] == "file" else [x for x in run.pool.get(m.uid, []) if x is not h][:4]
         for x in others:
             run.call(lambda: (x.created_at, x.updated_at))
         run.expect_ok(run.call(lambda: fn(t) if t is not None else fn()), "force_" + o["which"])
@@ -1323,7 +1324,7 @@ def observe_all_paths(run, m, site, oracle="alias_view"):
     handles = []
     for via in (0, 1, 2, 3):
         handles.append(("via%d" % via, run.R(m, via)))
-    for j, h in enumerate(list(run.pool.get(id(m), []))[:6]):
+    for j, h in enumerate(list(run.pool.get(m.uid, []))[:6]):
         handles.append(("pooled", h))
     for owner, attr, is_list in run.linkers(m):
         oh = run.R(owner, 0)
@@ -1332,7 +1333,7 @@ def observe_all_paths(run, m, site, oracle="alias_view"):
         except Exception as e:  # noqa
             run.violation(oracle, site, "%s:link_%s_raises" % (m.kind, attr), repr(e))
         handles.append(("link:" + attr, h))
-        for oh2 in list(run.pool.get(id(owner), []))[:3]:
+        for oh2 in list(run.pool.get(owner.uid, []))[:3]:
             try:
                 h = getattr(oh2, attr)[m.id] if is_list else getattr(oh2, attr)
             except Exception as e:  # noqa
